@@ -196,13 +196,13 @@ func (c *Channel) JoinPresence(ctx context.Context, p stanza.Presence, opt ...Op
 	if p.ID == "" {
 		p.ID = attr.RandomID()
 	}
-	p.To = c.addr
 
 	conf := config{}
 	for _, o := range opt {
 		o(&conf)
 	}
 	c.pass = conf.password
+	oldAddr := c.addr
 	if conf.newNick != "" {
 		newAddr, err := c.addr.WithResource(conf.newNick)
 		if err != nil {
@@ -210,10 +210,13 @@ func (c *Channel) JoinPresence(ctx context.Context, p stanza.Presence, opt ...Op
 		}
 		c.addr = newAddr
 	}
+	p.To = c.addr
 
 	// The channel stops being managed when we leave the room, make sure that the
-	// presences of the room we are about to (re)join reach it again.
+	// presences of the room we are about to (re)join reach it again, under the
+	// nickname we are joining with.
 	c.client.managedM.Lock()
+	delete(c.client.managed, oldAddr.String())
 	c.client.managed[c.addr.String()] = c
 	c.client.managedM.Unlock()
 
